@@ -79,7 +79,13 @@ func (a Atom) String() string {
 
 type Func struct {
 	Atoms []Atom
+	// Ret is how the function leaves when it runs to its end: 0 falls off the
+	// end, 1 return, 2 br to the function label, 3 br_if (taken), 4 br_table
+	// (arm), 5 br_table (default), 6 br out of a nested block
+	Ret int
 }
+
+const NumRetKinds = 7
 
 const (
 	NCells            = 16
@@ -240,6 +246,7 @@ func Generate(t *tape.Tape, o Opts) *Plan {
 				break
 			}
 		}
+		f.Ret = t.Choose(NumRetKinds)
 		p.Funcs = append(p.Funcs, f)
 	}
 	return p
@@ -379,6 +386,21 @@ func (p *Plan) Encode() []byte {
 		}
 		if !tail {
 			c.LocalGet(1).I32Const(int32(i + 1)).I32Add()
+			// leave through one of the ways a function can return (same value either way)
+			switch f.Ret {
+			case 1:
+				c.Return()
+			case 2:
+				c.Br(0)
+			case 3:
+				c.I32Const(1).BrIf(0).Drop().Unreachable()
+			case 4:
+				c.I32Const(0).BrTable([]uint32{0, 0}, 0)
+			case 5:
+				c.I32Const(9).BrTable([]uint32{0}, 0)
+			case 6:
+				c.LocalSet(1).Block(wasmb.BlockVoid).Block(wasmb.BlockVoid).LocalGet(1).Br(2).End().End().Unreachable()
+			}
 		}
 		m.AddFunc(i32, i32, []wasmb.ValType{wasmb.I32}, c.B, fmt.Sprintf("f%d", i))
 	}
